@@ -94,8 +94,9 @@ def build_simple(g):
             if r.random() < 0.5:
                 u, v = v, u
             G.remove_edge(u, v)
-        G.update_vertex_number(0)
         G.update_vertex_number(n)
+        G.update_vertex_number(max(0, n - 1))      # "raises the number of vertices to": a smaller value changes nothing
+        G.update_vertex_number(0)
         return G
     if kind in ('networkx-shuffled', 'networkx-directed'):
         r = _rng(g)
